@@ -123,6 +123,18 @@ REGISTRY = {
         ],
         "require": {"backoff": 25000, "backoff:flat": 4871, "backoff:nonfinite": 5405, "backoff:reaches-T5": 4570, "c11:cut-beyond-exchange": 126, "c11:enumerated": 50, "c11:fault:cut-in": 275, "c11:fault:cut-out": 191, "c11:fault:linktest": 81, "c11:fault:peer-close": 73, "c11:fault:select-rejected": 45, "c11:fault:t6": 38, "c11:fault:t7": 46, "c11:fault:t8": 84, "c11:fault:write-timeout": 87, "c11:refusals:0": 339, "c11:refusals:1": 137, "c11:refusals:2": 129, "c11:refusals:3": 317, "c11:role:active": 466, "c11:role:passive": 458},
     },
+    "C17": {
+        "level": "exploration",
+        "claim": "The real message splitter and block parser are compared image by image with an independent E4 reference over generated messages (all header field values, body lengths 0..8 KiB biased to the 243/244/245, 488/489, 732/733 boundaries) and mutated block images; generated inbound block sequences over the statement's alphabet (valid next, duplicate, skipped number, changed header field, wrong device, wrong direction, block 0, T4 gap, interleaved new message) are fed with an injected clock to the REAL assembler and compared with a reference E4 section 9.4 assembler; end to end, a real secs1 connection (host/equipment x active/passive) talks to a reference character-level line peer in virtual time in both directions, incl. NAK-ed retransmissions outbound and corrupt block images inbound, with ACK/NAK per block, exact deliveries, link survival and a final probe.",
+        "trust": "Trusts ref/e4 (block layout, Split, the section 9.4 assembler as summarised in the statement, the line peer); hook secs1/export_verif.go only wraps unexported code; virtual time (testing/synctest) for T1/T2/T4.",
+        "technique": "property-based testing (rapid): differential vs reference codec and assembler (hook-driven and end to end in testing/synctest)",
+        "tests": [
+            {"name": "TestC17Blocks", "shards": 4, "shards_thorough": 16},
+            {"name": "TestC17Assembler", "shards": 4, "shards_thorough": 16},
+            {"name": "TestC17Line", "shards": 8, "shards_thorough": 16},
+        ],
+        "require": {"c17:blocks:1": 2607, "c17:blocks:2": 747, "c17:blocks:3": 614, "c17:blocks:4": 1031, "c17:parse:extend": 874, "c17:parse:flip": 1179, "c17:parse:length": 900, "c17:parse:none": 1164, "c17:parse:truncate": 880, "c17a:block-0": 758, "c17a:block-0-lone": 769, "c17a:changed-header": 1365, "c17a:duplicate": 1231, "c17a:new-message": 1202, "c17a:next": 4804, "c17a:next-after-T4": 1339, "c17a:skipped-number": 896, "c17a:wrong-device": 1348, "c17a:wrong-direction": 1366, "c17l:in:bad-checksum": 704, "c17l:in:bad-length": 2074, "c17l:in:block-0": 47, "c17l:in:block-0-lone": 131, "c17l:in:changed-header": 30, "c17l:in:duplicate": 1551, "c17l:in:new-message": 136, "c17l:in:next": 21644, "c17l:in:next-after-T4": 2643, "c17l:in:skipped-number": 21, "c17l:in:wrong-device": 710, "c17l:in:wrong-direction": 151, "c17l:inbound": 4888, "c17l:out:blocks:1": 727, "c17l:out:blocks:2": 26, "c17l:out:blocks:3": 25, "c17l:out:blocks:4": 40, "c17l:out:forward": 129, "c17l:out:nak-retry": 644, "c17l:out:send": 690, "c17l:outbound": 620, "c17l:role:equipment": 101, "c17l:role:host": 5406},
+    },
     "C19": {
         "level": "exploration",
         "claim": "Generated observation histories (probe outcome, receive stamps before/at/after the probe, in-flight counts at evaluation and re-check, thresholds 1-6, suppression on/off) folded through the library's real failure-accounting reducers exactly as the probe loop folds them and compared step by step with a reference model plus windowed history invariants; end to end, seven peer personalities against real connections in virtual time, where the number and instants of probes and the instant of the drop are compared exactly with what the suppression rules prescribe.",
@@ -199,4 +211,4 @@ REGISTRY = {
 NOT_APPLICABLE = {}
 
 # commits in /repo that add the build-tag-guarded hooks
-HOOK_COMMITS = []
+HOOK_COMMITS = ["a962bf2", "d5ef0b2", "786be1f", "8e3f6d1"]
